@@ -36,6 +36,18 @@ func c14InternalLines(emit func(string), rng *verifRng, thorough bool, replay st
 		}
 		emit(c14IdkLine(rng, i%2 == 0, 4+rng.intn(9)))
 	}
+	// directed: a tuple is numbered, not used for 25 h (resp. 23 h), another tuple is numbered (its autoClean runs) or
+	// clean runs, the tuple is numbered again - for the epoch time, a recent and an old creation time
+	for _, auto := range []bool{true, false} {
+		for _, t := range []int64{0, -1, 259200000} {
+			for _, idle := range []int64{90000000, 82800000} {
+				if replay != "" && replay != "idk" {
+					break
+				}
+				emit(c14IdkDirected(auto, t, idle))
+			}
+		}
+	}
 	rounds := 40
 	if thorough {
 		rounds = 400
@@ -117,6 +129,63 @@ func c14IdkLine(rng *verifRng, auto bool, nops int) string {
 		idk.update(&b)
 		ops = append(ops, fmt.Sprintf("u|%s|%d|%d", k.src, k.t, now))
 		outs = append(outs, fmt.Sprintf("%d|%s", b.PrimaryBlock.CreationTimestamp.SequenceNumber(), c14IdkDump(&idk)))
+	}
+	a := 0
+	if auto {
+		a = 1
+	}
+	return fmt.Sprintf("idk %d %s %s", a, strings.Join(ops, ","), strings.Join(outs, ","))
+}
+
+// c14IdkDirected: update k, update k, [idle], update of another tuple / clean, update k.
+func c14IdkDirected(auto bool, age int64, idle int64) string {
+	idk := NewIdKeeper()
+	idk.autoClean = auto
+	base := int64(bpv7.DtnTimeNow())
+	t := uint64(0)
+	if age != 0 {
+		if age < 0 {
+			age = 0
+		}
+		t = uint64(base - age)
+	}
+	var ops, outs []string
+	upd := func(src string, ts uint64) bool {
+		now := uint64(bpv7.DtnTimeNow())
+		b, err := c14Bundle(src, c14Dest, map[bool]string{true: "epoch", false: "now"}[ts == 0], time.Now(), 0, "x")
+		if err != nil {
+			return false
+		}
+		b.PrimaryBlock.CreationTimestamp[0] = ts
+		idk.update(&b)
+		ops = append(ops, fmt.Sprintf("u|%s|%d|%d", src, ts, now))
+		outs = append(outs, fmt.Sprintf("%d|%s", b.PrimaryBlock.CreationTimestamp.SequenceNumber(), c14IdkDump(&idk)))
+		return true
+	}
+	if !upd(c14Node, t) || !upd(c14Node, t) {
+		return "idk error build"
+	}
+	src, _ := bpv7.NewEndpointID(c14Node)
+	tpl := idTuple{source: src, time: bpv7.DtnTime(t)}
+	idk.mutex.Lock()
+	if u, ok := idk.used[tpl]; ok {
+		idk.used[tpl] = u - bpv7.DtnTime(idle)
+	}
+	idk.mutex.Unlock()
+	ops = append(ops, fmt.Sprintf("a|%s|%d|%d", c14Node, t, idle))
+	outs = append(outs, "-|"+c14IdkDump(&idk))
+	if auto {
+		if !upd(c14App, uint64(base)) {
+			return "idk error build"
+		}
+	} else {
+		now := uint64(bpv7.DtnTimeNow())
+		idk.clean()
+		ops = append(ops, fmt.Sprintf("c|%d", now))
+		outs = append(outs, "-|"+c14IdkDump(&idk))
+	}
+	if !upd(c14Node, t) {
+		return "idk error build"
 	}
 	a := 0
 	if auto {
